@@ -21,6 +21,7 @@ class Facts:
         self.ok = True
         self._at = {}
         self._worlds = {}
+        self._back = {}        # loop header -> set of fact sets with which a back edge to it is taken (before widening)
         self._cap = cap
         self._call_at = {c.bb: c for c in fn.calls}
         self._run()
@@ -344,6 +345,7 @@ class Facts:
                 if y in loops:
                     if b in loops[y]:
                         # back edge: widen to the loop-entry state
+                        self._back.setdefault(y, set()).add(frozenset(facts2))
                         got = [x for x in entries if x[0] == y]
                         if got:
                             f2 = got[0][1]
@@ -360,6 +362,12 @@ class Facts:
         if not self.ok:
             return set()
         return self._at.get(bb, set())
+
+    def backedge_worlds(self, header):
+        """fact sets with which control returns to the given loop header from inside the loop (one per distinct abstract path)"""
+        if not self.ok:
+            return None
+        return list(self._back.get(header, []))
 
     def worlds_at(self, bb):
         """the distinct fact sets with which bb is reached (for disjunctive queries: `every path satisfies A or B`)"""
